@@ -3,7 +3,7 @@ import sys
 from harness import common
 from symrun import loader
 loader.install()
-from harness.dsim import DExplore, make_jobs, NAMES  # noqa: E402
+from harness.dsim import DExplore, make_jobs, make_random_jobs as make_drandom_jobs, NAMES  # noqa: E402
 
 CONFIGS = {
     "one-way": dict(app=True),
@@ -94,7 +94,7 @@ class Delivery(DExplore):
 
 
 def jobs(tier):
-    return make_jobs(Delivery, tier, 2, 3)
+    return make_jobs(Delivery, tier, 2, 3) + make_drandom_jobs(Delivery, tier)
 
 
 ASSUMPTIONS = [
